@@ -726,12 +726,15 @@ def rule_D6(F, R):
             R.missing("D6", "struct %s" % im["self"])
             continue
         n += 1
+        # exact table: the handle is the connection and its access mode; anything else is state that
+        # outlives a transaction (and survives its rollback)
+        HANDLE_OK = {"rusqlite::Connection": "the connection", "storage::config::AccessMode": "configuration, fixed at open"}
         bad = []
         for f in adt["variants"][0]["fields"]:
-            if re.search(r"uuid::Uuid|TaskMap|operation::Operation|HashMap<|Vec<|BTreeMap<|HashSet<", f["ty"]):
+            if f["ty"] not in HANDLE_OK:
                 bad.append((f["name"], f["ty"]))
         if bad:
-            R.violation("D6", im["self"], "data-cached-in-handle:%s" % bad[0][0], "%s keeps `%s: %s` across transactions; commits made through other handles or processes are not reflected in it" % (im["self"], bad[0][0], bad[0][1]), loc(adt["sp"]))
+            R.violation("D6", im["self"], "data-cached-in-handle:%s" % bad[0][0], "%s keeps `%s: %s` across transactions: it survives the rollback of the transaction that set it, and commits made through other handles or processes are not reflected in it" % (im["self"], bad[0][0], bad[0][1]), loc(adt["sp"]))
         else:
             R.ok("D6", "%s fields: %s" % (im["self"], [f["name"] for f in adt["variants"][0]["fields"]]), loc(adt["sp"]))
     R.floor("D6", "SQLite storage handle structs", n, 1)
